@@ -334,12 +334,14 @@ def controlling_switches(body, v, _cache={}):
     if key in _cache:
         return _cache[key]
     out = []
+    # within one iteration: back edges are cut, otherwise every `continue` "reaches" v through the next iteration
+    back = {(u, h) for u in body.reachable() for h in body.succ(u) if body.dominates(h, u)}
     for bi in body.reachable():
         t = body.term(bi)
         if t['k'] != 'switch':
             continue
         succ = [x for x in body.succ(bi) if not body.blocks[x].get('cleanup') and body.term(x)['k'] != 'unreachable']
-        can = [v in _core.reachable_without(body, set(), start=x) for x in succ]
+        can = [v in _core.reachable_without(body, back, start=x) for x in succ]
         if any(can) and not all(can):
             out.append(bi)
     _cache[key] = out
